@@ -50,6 +50,10 @@ VALID = [
     'def uid { salt: "u" splitters: plan return "A" weighted 2, "B" weighted 1 }',
     # a switched-off branch (its statement weighs nothing; never reached by the probes): compiles like any other text
     'def exp { splitters: uid if plan == "XX" { return "off" weighted 0 } else { return "A" weighted 1, "B" weighted 2 } }',
+    # texts with a statement that weighs nothing in a branch that IS reached (calls routed there fail, at call time; the text is
+    # valid and loads like any other - e.g. an experiment switched off for everybody but one plan)
+    'def exp { splitters: uid if plan == "pro" { return "A" weighted 1, "B" weighted 1 } else { return "off" weighted 0, "off2" weighted 0.0 } }',
+    'def off { splitters: uid return "off" weighted 0 }',
     # ==-equal group values of different type / sign
     'def num { splitters: uid return 1 weighted 1, 2 weighted 1 }',
     'def num { splitters: uid return 1.0 weighted 1, 2.0 weighted 1 }',
@@ -482,6 +486,13 @@ def more_fixed():
         yield {"ops": [["new", x], ["recompile", 0, y], ["call", 0, 0], ["recompile", 0, x], ["call", 0, 1]]}
 
 
+def every_text_fixed():
+    """every valid text of the catalogue: constructed, and reached from / left for another text through recompile()"""
+    for ti in range(1, len(VALID)):
+        yield {"ops": [["new", 0], ["recompile", 0, ti], ["call", 0, 0], ["recompile", 0, 0], ["call", 0, 1], ["new", ti], ["call", 1, 2], ["recompile", 1, 0],
+                       ["recompile", 1, ti], ["call", 1, 3]]}
+
+
 def fixed_neighbours(chunk=6, only=None):
     """EVERY neighbour pair (whitespace / comment look-alikes / case / normal forms inside strings, ==-equal literals of another
     type, same spelling as another token type, weak-fingerprint twins: same length and Adler-32 / byte sum / CRC-32 ...) of three
@@ -501,7 +512,7 @@ def fixed_neighbours(chunk=6, only=None):
 
 def run(ctx, rec):
     if ctx.shard == 0:
-        runner.direct_run(ctx, rec, "fixed-histories", FIXED + list(more_fixed()), judge)
+        runner.direct_run(ctx, rec, "fixed-histories", FIXED + list(more_fixed()) + list(every_text_fixed()), judge)
         if rec.violations:
             return
         runner.direct_run(ctx, rec, "all-neighbours-of-fixed-programs", fixed_neighbours(), judge_neighbours)
